@@ -21,6 +21,7 @@ import (
 	"testing"
 
 	"github.com/dolthub/go-mysql-server/vh/internal/fx"
+	"github.com/dolthub/go-mysql-server/vh/internal/kf"
 	"github.com/dolthub/go-mysql-server/vh/internal/stats"
 	"github.com/dolthub/vitess/go/vt/sqlparser"
 	"pgregory.net/rapid"
@@ -80,8 +81,18 @@ func dataChange(rt *rapid.T, seq int) string {
 	}
 }
 
-func schemaChange(rt *rapid.T, seq int) string {
-	switch rapid.IntRange(0, 3).Draw(rt, "ddl") {
+// idDecIndex: with an index on the DECIMAL column, predicates that compare the column with a
+// bound DECIMAL parameter select other rows than the inlined literal (see notes/C12.findings.json).
+const idDecIndex = "C12-decimal-index-bound-param"
+
+func schemaChange(rt *rapid.T, st *stats.Collector, seq int) string {
+	k := rapid.IntRange(0, 3).Draw(rt, "ddl")
+	if k == 2 && kf.Listed(idDecIndex) {
+		// region of the listed finding: no index on the DECIMAL column
+		st.Excluded(idDecIndex + ":no-index-on-decimal-column")
+		return fmt.Sprintf("CREATE INDEX kx%d ON t (b, u)", seq)
+	}
+	switch k {
 	case 0:
 		return fmt.Sprintf("ALTER TABLE t ADD COLUMN x%d INT DEFAULT 3", seq)
 	case 1:
@@ -479,7 +490,7 @@ func runCase(rt *rapid.T, st *stats.Collector, mk func(h *harness, s *stmt) (rou
 		func() bool { return execute("other-values") },
 		func() bool { h.both(rt, dataChange(rt, 1)); return execute("after-data-change") },
 		func() bool { return execute("other-values-2") },
-		func() bool { h.both(rt, schemaChange(rt, 1)); return execute("after-schema-change") },
+		func() bool { h.both(rt, schemaChange(rt, st, 1)); return execute("after-schema-change") },
 		func() bool { h.both(rt, dataChange(rt, 2)); return execute("after-data-change-2") },
 	}
 	for _, f := range steps {
